@@ -246,11 +246,21 @@ func (r *reader) Position() (int, Segment) {
 
 func (r *reader) SetPosition(line int, pos Segment) {
 	r.lineOffset = -1
+	r.peekedLine = nil
+	if pos.Start < r.head || pos.Start >= r.pos.Stop {
+		// moved out of the current line: find the head of the new one
+		r.head = 0
+		if pos.Start > 0 && pos.Start <= r.sourceLength {
+			r.head = bytes.LastIndexByte(r.source[:pos.Start], '\n') + 1
+		}
+	}
 	r.line = line
 	r.pos = pos
 }
 
 func (r *reader) SetPadding(v int) {
+	r.lineOffset = -1
+	r.peekedLine = nil
 	r.pos.Padding = v
 }
 
